@@ -252,6 +252,10 @@ def run_history(ctx, mods, hist, model=True, kind='history'):
 
 
 # ---------- classes of the recorded findings ----------
+def _fold(s):
+    return s.translate(str.maketrans('ABCDEFGHIJKLMNOPQRSTUVWXYZ[]\\~', 'abcdefghijklmnopqrstuvwxyz{}|^'))
+
+
 def _expired_login_cached(inp):
     """F5: a login timeout is configured and the failing lookup's hostmask was logged in earlier"""
     hist = inp.get('history')
@@ -282,7 +286,8 @@ def _login_vs_mask(inp):
         return False
     h = inp['h']
     upto = hist['ops'][:inp['step'] + 1]
-    auths = [o for o in upto if o[0] == 'auth' and o[2] == h]
+    # the same hostmask under IRC case folding (N{CK!u@h is n[ck!u@h): one IRC client
+    auths = [o for o in upto if o[0] == 'auth' and _fold(o[2]) == _fold(h)]
     sets = [o for o in upto if o[0] == 'set' and any(ref_match(m, h) for m in o[2][1])]
     return any(a[1] != s[1] for a in auths for s in sets) or len(set(a[1] for a in auths)) > 1
 
